@@ -1,4 +1,5 @@
 import TdModel.Model.C09Wire
+import TdModel.Model.C09BytesWire
 import TdModel.Prim.SHA1
 open TdModel TdModel.C09
 
@@ -20,6 +21,6 @@ def handle (line : String) : String :=
     match ofHex nn, ofHex sn with
     | some nn, some sn => let k := tempAESKeys Prim.sha1 nn sn; s!"{toHex k.1} {toHex k.2}"
     | _, _ => "bad-op"
-  | _ => "bad-op"
+  | ws => (bytesOp ws).getD "bad-op"
 
 def main : IO Unit := runDriver handle
